@@ -17,6 +17,9 @@ def conds(tier):
                     budget=200, family="F-CTX sv/attr overrides, exits", encodes=ctx.ENC_CTX))
     out.append(Cond("ctxsync", ctx.mk_ctx2(P, 2, (0, 5, 1), (1, 4, 8), 2), ctx.ctx2_params(2, 3, 3, 2, ho=0), pin=3,
                     budget=200, family="F-CTX x F-REENTRY: overrides entered after synchronous calls", encodes=ctx.ENC_CTX))
+    out.append(Cond("shared", ctx.mk_shared(P), ctx.SHARED_PARAMS, pin=3, budget=150, builds=("C", "P"),
+                    family="a shared in-flight task with its own override awaited under two different overrides; "
+                           "unshared readers see their own awaiter's override", encodes=ctx.ENC_CTX))
     if not q:
         out.append(Cond("over4", ctx.mk_over3(P, 4), ctx.over_params(4), pin=4, budget=900,
                         family="F-CTX four pending overriders", encodes=ctx.ENC_CTX))
